@@ -330,7 +330,7 @@ def r3_branch_local_dependencies(ctx):
     f = ctx.fn(GEN, "_if_to_py_ast")
     for var, want in (("then_ast", "orelse"), ("else_ast", "body")):
         uses = [n for n in ast.walk(f) if isinstance(n, ast.Attribute) and n.attr in ("dependencies", "node") and isinstance(n.value, ast.Name) and n.value.id == var]
-        where = {_kw_of_call_containing(f, u, "ast.If") for u in uses}
+        where = set().union(*[P.keyword_sinks(f, u, "ast.If") for u in uses]) if uses else set()
         ok = bool(uses) and where == {want}
         ctx.ob("C02.R3", f"{GEN}::_if_to_py_ast::{var} only inside ast.If({want}=...)", GEN, f.lineno, ok,
                "" if ok else f"{var}'s statements or value are used outside the If's `{want}` block ({sorted(str(w) for w in where)}): the branch would run although not taken")
@@ -341,7 +341,7 @@ def r3_branch_local_dependencies(ctx):
     t = ctx.fn(GEN, "_try_to_py_ast")
     for var, want in (("body_ast", "body"),):
         uses = [n for n in ast.walk(t) if isinstance(n, ast.Attribute) and n.attr in ("dependencies", "node") and isinstance(n.value, ast.Name) and n.value.id == var]
-        where = {_kw_of_call_containing(t, u, "ast.Try") for u in uses}
+        where = set().union(*[P.keyword_sinks(t, u, "ast.Try") for u in uses]) if uses else set()
         ok = bool(uses) and where == {want}
         ctx.ob("C02.R3", f"{GEN}::_try_to_py_ast::{var} only inside ast.Try({want}=...)", GEN, t.lineno, ok, "" if ok else f"the try body's statements escape the protected block: {sorted(str(w) for w in where)}")
     fin = [a for a in ast.walk(t) if isinstance(a, ast.Call) and isinstance(a.func, ast.Attribute) and P.un(a.func.value) == "finallys"]
